@@ -7,10 +7,10 @@ props = [json.loads(l) for l in open(os.path.join(V, "properties.jsonl"))]
 ROUTER_NOTE = ("Bounded constants (listed in the evidence per configuration); mocks stand in for QUIC streams; "
                "futures-mpsc and StreamMap semantics are modelled from their source; environment steps occur between outer polls.")
 CLAIMS = {
- "C01": dict(level="model_checking", tech="TLC model checking of PubSubRouter.tla (one action per inner poll, waker slots) against PubSubIface.tla; TLC-generated + random schedules replayed on the real pubsub::Topic; TLC trace validation (Trace_PubSubIface.tla)",
+ "C01": dict(level="model_checking", tech="TLC model checking of PubSubRouter.tla (one action per inner poll, waker slots) against PubSubIface.tla; TLC-generated + random schedules replayed on the real pubsub::Topic; TLC trace validation (Trace_PubSubIface.tla); system level: the same schedules replayed with real publishers/subscribers over QUIC (Trace_Fanout.tla); ServerReg.tla one-router-per-topic + concurrent first registrations (Trace_ServerReg.tla)",
              text="Exhaustive exploration of the implementation-shaped pub/sub router model for small constants (order, exactly-once, quiescent completeness, refinement of the interface spec, liveness of a poll), bound to the code by replaying TLC-generated and random schedules on the real router future and validating every recorded trace with TLC against the interface specification.",
              note=ROUTER_NOTE, ref="DESIGN.md 4 C01"),
- "C02": dict(level="model_checking", tech="TLC model checking of ReqRepRouter.tla against ReqRepIface.tla (4 configurations); schedules replayed on the real reqrep::Topic; TLC trace validation (Trace_ReqRepIface.tla)",
+ "C02": dict(level="model_checking", tech="TLC model checking of ReqRepRouter.tla against ReqRepIface.tla (4 configurations); schedules replayed on the real reqrep::Topic; TLC trace validation (Trace_ReqRepIface.tla); ServerReg.tla one-router-per-topic + concurrent first registrations over QUIC (Trace_ServerReg.tla)",
              text="Exhaustive exploration of the implementation-shaped request/reply router model (routing, at-most-once, per-requestor order, origin tag, reply overwrite, bad tags) for small constants; conformance by replaying generated/random schedules on the real router with real Frames and header maps and validating traces with TLC.",
              note=ROUTER_NOTE, ref="DESIGN.md 4 C02"),
  "C08": dict(level="model_checking", tech="TLC model checking of both router modules with failure injection (per position x operation) + trace validation of replayed fault schedules",
@@ -22,7 +22,7 @@ CLAIMS = {
  "C10": dict(level="model_checking", tech="TLC model checking of ReqRepRouter.tla (3 repliers: bind/reject/rebind, liveness of the decision) + trace validation against ReqRepIface.tla",
              text="At most one bound replier, reject = error frame then close and nothing else, bound replier unaffected, rebind after departure: invariants and refinement checked exhaustively for 3 repliers; replayed schedules validated.",
              note=ROUTER_NOTE, ref="DESIGN.md 4 C10"),
- "C16": dict(level="model_checking", tech="TLC: CloseChannel enabled in every idle state of both router models; Live_ShutdownTerminates + Inv_ShutdownFlushed; close schedules replayed on the real routers and validated",
+ "C16": dict(level="model_checking", tech="TLC: CloseChannel enabled in every idle state of both router models; Live_ShutdownTerminates + Inv_ShutdownFlushed; close schedules replayed on the real routers and validated; ServerLife.tla (registrations racing with Server::shutdown, two locks, close-then-join; liveness) model-checked and TLC-enumerated situations built with a real server that receives the interrupt signal (Trace_ServerLife.tla)",
              text="Shutdown from every reachable router state of the bounded models terminates and flushes; the real routers are driven through close_channel() at TLC-chosen points under the wake-driven executor and must report `finished` with everything flushed.",
              note=ROUTER_NOTE, ref="DESIGN.md 4 C16"),
 }
